@@ -12,7 +12,7 @@
    - proof operators (crypto/merkle/proof_op.go ProofRuntime.VerifyValue / VerifyAbsence) and the
      configured KeyPathFunc are the relations [verify_value], [verify_absence], [key_path].
 
-   Eight repairs are modelled as present (see /verif/fixes; F58, in crypto/merkle KeyPath.String,
+   Nine repairs (F80, in updateLightClientIfNeededTo, is described at [upd]) are modelled as present (see /verif/fixes; F58, in crypto/merkle KeyPath.String,
    and F62, in crypto/merkle ValueOp.Run, are described at the key-path and ValueOp functions below):
    - F11: BlockResults compares NewResults(TxsResults).Hash() with the next header's
      LastResultsHash (the unrepaired code hashed begin/end-block events into it and refused
@@ -57,11 +57,16 @@ Definition psh_eqb (a b : psh) : bool := (ps_total a =? ps_total b) && bytes_eqb
 Record lblock := { lb_header : header; lb_commit : bytes; lb_id_hash : bytes; lb_id_parts : psh;
                    lb_vals : list bytes }.
 
-(* light/rpc LightClient *)
+(* light.Client.Update has THREE outcomes: an error; a new light block; and (nil, nil) - no error
+   and no block - when the primary's latest block is not newer than the last trusted one (or the
+   store is empty) *)
+Inductive upd_result := UpdErr | UpdNone | UpdBlock (l : lblock).
+
+(* light/rpc LightClient; [o_trusted 0] = TrustedLightBlock(0), the latest trusted light block *)
 Record oracle := {
   o_verify : Z -> option lblock;      (* VerifyLightBlockAtHeight; None = error *)
   o_trusted : Z -> option lblock;     (* TrustedLightBlock *)
-  o_update : option lblock            (* Update *)
+  o_update : upd_result               (* Update *)
 }.
 
 Inductive call := CallVerify (h : Z) | CallTrusted (h : Z) | CallUpdate.
@@ -284,10 +289,16 @@ Definition results_hash (rs : list dtx) : bytes := root H (map dtx_enc rs).
 Definition params_hash (max_bytes max_gas : Z) : bytes := H (hashed_params_enc max_bytes max_gas).
 
 (* client.go updateLightClientIfNeededTo *)
-Definition upd (o : oracle) (height : option Z) : call * option lblock :=
+Definition upd (o : oracle) (height : option Z) : list call * option lblock :=
   match height with
-  | None => (CallUpdate, o_update o)
-  | Some h => (CallVerify h, o_verify o h)
+  | None => match o_update o with
+            | UpdErr => ([CallUpdate], None)
+            | UpdBlock l => ([CallUpdate], Some l)
+            (* fix F80: no newer block - the latest trusted light block is the latest; the unrepaired
+               code handed the nil block on and Commit / Validators dereferenced it (panic) *)
+            | UpdNone => ([CallUpdate; CallTrusted 0], o_trusted o 0)
+            end
+  | Some h => ([CallVerify h], o_verify o h)
   end.
 
 (* types/block.go Block.ValidateBasic *)
@@ -366,14 +377,14 @@ Definition relay_info (o : oracle) (metas : list (option meta)) : list call * bo
 
 (* Client.Commit: nothing is asked of the server *)
 Definition relay_commit (o : oracle) (height : option Z) : list call * option (header * bytes) :=
-  let '(c, ol) := upd o height in
-  ([c], match ol with Some l => Some (lb_header l, lb_commit l) | None => None end).
+  let '(cs, ol) := upd o height in
+  (cs, match ol with Some l => Some (lb_header l, lb_commit l) | None => None end).
 
 (* Client.Validators: (BlockHeight, Validators, Total); Count = length Validators *)
 Definition relay_validators (o : oracle) (height pg pp : option Z)
   : list call * option (Z * list bytes * Z) :=
-  let '(c, ol) := upd o height in
-  ([c], match ol with
+  let '(cs, ol) := upd o height in
+  (cs, match ol with
         | None => None
         | Some l =>
           let total := Z.of_nat (length (lb_vals l)) in
